@@ -117,6 +117,8 @@ def plan_ctx(modname, tier, backends=("c", "py"), nosurr=False, ngroups=12):
             tasks.append(("vlib.sweep", "task_route_group", (modname, "NAMES_CTX1", gi, ngroups, one), b, "x1"))
         for gi in range(2 * ngroups):
             tasks.append(("vlib.sweep", "task_route_group", (modname, "NAMES_CTX2", gi, 2 * ngroups, two), b, "x2"))
+        for gi in range(ngroups):
+            tasks.append(("vlib.sweep", "task_route_group", (modname, "NAMES_BCTX", gi, ngroups, two), b, "xb"))
     return tasks
 
 
@@ -124,5 +126,8 @@ def ctx_note():
     from . import routes
     return {"dimensions": {k: [repr(v) for v in vs] for k, vs in routes.CTX_DIMS.items()}, "positions": list(routes.CTX_POSITIONS),
             "one_factor_templates": len(routes.NAMES_CTX1), "all_pairs_templates": len(routes.NAMES_CTX2),
+            "build_contexts": {"routes": len(routes.NAMES_BCTX), "schemes": routes.BCTX_SCHEMES, "hosts": routes.BCTX_HOSTS,
+                               "ports": [repr(p) for p in routes.BCTX_PORTS], "userinfo": routes.BCTX_UI,
+                               "meaning": "URL.build with the word as user / password / path / query_string / fragment under every combination of these (query_string also next to an empty-but-given query)"},
             "meaning": "the constructor with the word in one component while the other components take every value of one "
                        "dimension (one-factor) or of every pair of dimensions (all-pairs), the rest at their first value"}
